@@ -202,8 +202,36 @@ class SynthWiki:
                 e["contributors"] = [{"userid": i + 1, "name": n} for i, n in enumerate(c["named"] + c["bots"])]
                 if c["anon"]:
                     e["anoncontributors"] = c["anon"]
+        # result limits with old-style continuation: the limit counts items over all pages of the request, in page order
+        qc = {}
+        for prop, prefix in (("templates", "tl"), ("images", "im"), ("contributors", "pc")):
+            if prop not in props:
+                continue
+            limit = int(kw.get(prefix + "limit") or 500)
+            flat = [(pid, i) for pid, e in pages.items() for i in range(len(e.get(prop, [])))]
+            start = 0
+            cont = kw.get(prefix + "continue")
+            if cont:
+                cp, ci = str(cont).split("|")
+                start = flat.index((cp, int(ci))) if (cp, int(ci)) in flat else len(flat)
+            keep = set(flat[start:start + limit])
+            for pid, e in pages.items():
+                if prop in e:
+                    kept = [x for i, x in enumerate(e[prop]) if (pid, i) in keep]
+                    if kept:
+                        e[prop] = kept
+                    else:
+                        del e[prop]
+                if prop == "contributors" and cont and "anoncontributors" in e:
+                    del e["anoncontributors"]  # reported with the first batch only
+            if start + limit < len(flat):
+                nxt = flat[start + limit]
+                qc[prop] = {prefix + "continue": "%s|%d" % nxt}
         if pages:
             q["pages"] = pages
         if redirects:
             q["redirects"] = redirects
-        return {"query": q}
+        out = {"query": q}
+        if qc:
+            out["query-continue"] = qc
+        return out
